@@ -25,6 +25,7 @@ import (
 	"github.com/IrineSistiana/mosproxy/app/router"
 	"github.com/IrineSistiana/mosproxy/internal/dnsmsg"
 	"github.com/IrineSistiana/mosproxy/internal/upstream"
+	"github.com/IrineSistiana/mosproxy/internal/upstream/transport"
 	"github.com/IrineSistiana/mosproxy/verif/internal/fakeup"
 	"github.com/IrineSistiana/mosproxy/verif/internal/gen"
 	"github.com/IrineSistiana/mosproxy/verif/internal/pki"
@@ -146,7 +147,8 @@ func runC18(c *Ctx) {
 	}
 	for rep := 0; rep < reps && rep < 2; rep++ {
 		// long cells first so that they overlap with everything else
-		cells = append([]cell{{"tcp+pipeline", "eol-inflight", rep}, {"tls+pipeline", "eol-inflight", rep}, {"tcp", "idle-timer-race", rep}, {"tls", "idle-timer-race", rep}, {"udp", "idle-timer-race", rep}}, cells...)
+		cells = append([]cell{{"tcp+pipeline", "eol-inflight", rep}, {"tls+pipeline", "eol-inflight", rep}, {"tcp", "idle-timer-race", rep}, {"tls", "idle-timer-race", rep}, {"udp", "idle-timer-race", rep},
+			{"ctor-reuse", "late-dial", rep}, {"ctor-pipeline", "late-dial", rep}, {"ctor-reuse", "idle", rep}, {"ctor-pipeline", "inflight", rep}}, cells...)
 	}
 	parallelFor(len(cells), 12, nil, func(i int) {
 		cl := cells[i]
@@ -258,6 +260,8 @@ func c18UpstreamChild(args []string) int {
 		if err == nil {
 			addr = "udp://" + s.Addr["udp"]
 		}
+	case "ctor-reuse", "ctor-pipeline": // transports built with their exported constructors and a DialContext of the harness
+		err = s.ListenTCP("127.0.0.1:0")
 	case "tcp", "tcp+pipeline":
 		err = s.ListenTCP("127.0.0.1:0")
 		addr = kind + "://" + s.Addr["tcp"]
@@ -293,10 +297,26 @@ func c18UpstreamChild(args []string) int {
 			}
 			return nil
 		}}
-	u, err := upstream.NewUpstream(addr, opt)
-	if err != nil {
-		fmt.Println("INCONCLUSIVE NewUpstream:", err)
-		return 0
+	var u upstream.Upstream
+	if strings.HasPrefix(kind, "ctor-") {
+		// a dialler that takes 400 ms and does not look at its context any more once it has started
+		// (a connect that completes in the kernel although the caller has given up)
+		dial := func(ctx context.Context) (net.Conn, error) {
+			dials.Add(1)
+			time.Sleep(400 * time.Millisecond)
+			return net.Dial("tcp", s.Addr["tcp"])
+		}
+		if kind == "ctor-reuse" {
+			u = transport.NewReuseConnTransport(transport.ReuseConnOpts{DialContext: dial, IdleTimeout: 20 * time.Second})
+		} else {
+			u = transport.NewPipelineTransport(transport.PipelineOpts{DialContext: dial, IsTCP: true, MaxConcurrentQuery: 64, IdleTimeout: 20 * time.Second})
+		}
+	} else {
+		u, err = upstream.NewUpstream(addr, opt)
+		if err != nil {
+			fmt.Println("INCONCLUSIVE NewUpstream:", err)
+			return 0
+		}
 	}
 	exchange := func(name string, timeout time.Duration) (time.Duration, error) {
 		ctx, cancel := context.WithTimeout(context.Background(), timeout)
@@ -348,6 +368,21 @@ func c18UpstreamChild(args []string) int {
 			}(i)
 		}
 		time.Sleep(300 * time.Millisecond)
+	case "late-dial":
+		// Close while the only dial is in progress; the dial completes 200 ms after Close
+		for i := 0; i < 3; i++ {
+			inflight.Add(1)
+			go func(i int) {
+				defer inflight.Done()
+				d, err := exchange(fmt.Sprintf("ok-ld%d.c18.test.", i), 8*time.Second)
+				if d > 4*time.Second {
+					fmt.Printf("VIOL pending-dial-exchange-not-released:%s an exchange waiting for a dial during Close returned only after %v\n", kind, d)
+				} else if err == nil {
+					fmt.Printf("VIOL exchange-completed-on-connection-dialled-after-close:%s an exchange that was waiting for its connection when Close() was called succeeded %v after it started, on a connection whose dial finished after Close()\n", kind, d)
+				}
+			}(i)
+		}
+		time.Sleep(200 * time.Millisecond)
 	case "idle-timer-race":
 		// Close while the idle timers of many pooled connections are firing: both sides walk the same
 		// connections and the same pool; Close has to return, later exchanges have to fail promptly.
